@@ -151,7 +151,7 @@ def _parse_tla_value(s):
     return val()
 
 
-def tlc(spec, cfg=None, workers=8, tracefile=None, env=None, timeout=1800, cont=True, simulate=None, coverage=False, xmx="8g", deque=False, extra=None, name=None):
+def tlc(spec, cfg=None, workers=8, tracefile=None, env=None, timeout=1800, cont=True, simulate=None, coverage=False, xmx="8g", deque=False, extra=None, name=None, capture=None):
     """Run TLC on spec/<spec>.tla with spec/<cfg>.cfg; returns TlcResult. Raises ToolError on TLC errors."""
     name = name or (cfg or spec)
     meta = os.path.join(WORK, "tlc", name + "-" + str(os.getpid()))
@@ -182,7 +182,11 @@ def tlc(spec, cfg=None, workers=8, tracefile=None, env=None, timeout=1800, cont=
     r.out = out
     r.wall = time.time() - t
     seen = set()
+    capf = open(capture[1], "w") if capture else None
     for line in out.splitlines():
+        if capf is not None and line.startswith('"' + capture[0] + " "):
+            capf.write(line + "\n")
+            continue
         # verdict lines are single-line TLA+ strings:  "TAG <json>"
         if line.startswith('"') and line.rstrip().endswith('"') and len(line) > 2:
             if line in seen:
@@ -210,6 +214,8 @@ def tlc(spec, cfg=None, workers=8, tracefile=None, env=None, timeout=1800, cont=
         m = re.match(r"<(\w+) line \d+, col \d+ to line \d+, col \d+ of module (\w+)>: (\d+):(\d+)", line)
         if m:
             r.coverage[m.group(1)] = max(r.coverage.get(m.group(1), 0), int(m.group(4)))
+    if capf is not None:
+        capf.close()
     bad = None
     for pat in ["TLC threw an unexpected exception", "Parsing or semantic analysis failed", "Error: Evaluating", "Error: TLC", "was not able to", "Error: In evaluation", "java.lang.", "Error: The exception", "Attempted to", "Error: Deadlock"]:
         if pat in out:
@@ -363,6 +369,33 @@ def judge_trace(ctx, spec, tracefile, workers=8, cfg=None, slim=None, timeout=18
     if r.invariant_violated and not r.rejects:
         raise ToolError("TLC reported an invariant violation without a REJECT line in %s" % spec)
     return r, cases
+
+
+def judge_shards(ctx, spec, shard_files, label=None, timeout=1800, slim=None):
+    """Trace validation that needs -workers 1 (TLC registers): one TLC process per shard, concurrently."""
+    from concurrent.futures import ThreadPoolExecutor
+    shard_files = [f for f in shard_files if os.path.exists(f) and os.path.getsize(f) > 0]
+    results = []
+
+    def one(args):
+        n, path = args
+        return tlc(spec, workers=1, tracefile=path, timeout=timeout, deque=True, cont=False, name="%s-%d" % (label or spec, n), xmx="4g")
+
+    with ThreadPoolExecutor(max_workers=8) as ex:
+        results = list(ex.map(one, enumerate(shard_files)))
+    all_cases = []
+    for path, r in zip(shard_files, results):
+        cases = read_ndjson(path)
+        all_cases += cases
+        ctx.add_mc(r, (label or spec) + ":" + os.path.basename(path))
+        ctx.traces += len(cases)
+        ctx.evaluations += len(cases)
+        by_id = {str(c.get("id")): c for c in cases}
+        for rej in r.rejects:
+            cid = str(rej[0])
+            c = by_id.get(cid, {})
+            ctx.report(cid, rej[1] if len(rej) > 1 else "rejected", rej[2:], {"source": c.get("source"), "trace_spec": spec, "line": (slim(c) if slim else None)})
+    return all_cases
 
 
 def model_check(ctx, spec, cfg=None, workers=8, expect_actions=None, timeout=1800, label=None, **kw):
